@@ -167,6 +167,8 @@ pub enum Aggregator {
    Top2,
    /// harness aggregator: number of input tuples, computed by iterating (multiplicity sensitive)
    CollectLen,
+   /// user aggregator returning one `(min, max)` tuple, destructured by a tuple pattern
+   MinMax,
    /// `not()` written explicitly as an aggregate
    Not,
 }
